@@ -83,7 +83,9 @@ fn one<T: Uni + rayon::iter::FromParallelIterator<f64> + for<'a> rayon::iter::Fr
         }
         // Min/Max must be exactly the sequential result, repeated runs of them identical
         if T::ORDER == 0 {
-            if let Some(d) = snap_diff(&seq.snapshot(), &p.snapshot()) {
+            // "exactly the sequential min/max" is numeric equality (C14: the sign of a zero is not fixed by f64::min/max)
+            let numeric_eq = seq.snapshot().iter().zip(p.snapshot().iter()).all(|(a, b)| a.1 == b.1);
+            if let Some(d) = snap_diff(&seq.snapshot(), &p.snapshot()).filter(|_| !numeric_eq) {
                 return fail("parallel:minmax", format!("{}: parallel result differs from the sequential one: {}", T::NAME, d));
             }
         }
@@ -188,7 +190,7 @@ pub fn run(cx: &Ctx) {
         (gen::dataset(1, 3000, 20000, 11.9), proptest::sample::select(THREADS.to_vec()), 0u8..8, any::<bool>()).prop_map(|(xs, threads, split, by_value)| Par { xs, threads, split, by_value, reps: 2 })
     };
     // proptest workers run concurrently on top of the rayon pools: oversubscription perturbs the schedules further
-    cx.run_pt(&Parallel, cx.by(60, 1500), 4, strat, "random data sets n <= 20000 x random pool x random splitting, 2 repetitions");
+    cx.run_pt(&Parallel, cx.by(150, 3000), 4, strat, "random data sets n <= 20000 x random pool x random splitting, 2 repetitions");
     if cx.thorough() {
         cx.label("bulk");
         let bulk = |n: usize| move || (any::<u64>(), gen::placement(11.9), proptest::sample::select(THREADS.to_vec()), 0u8..8, any::<bool>()).prop_map(move |(seed, pl, threads, split, by_value)| Par { xs: gen::bulk_dataset(n, seed, &pl), threads, split, by_value, reps: 2 });
